@@ -9,7 +9,15 @@ import json, os, sys
 
 ROOT = os.path.dirname(os.path.dirname(os.path.abspath(__file__)))
 props = [json.loads(l) for l in open(os.path.join(ROOT, "properties.jsonl"))]
-checks = json.load(open(os.path.join(ROOT, "tools", "checks.json")))
+import glob
+checks = {}
+for f in sorted(glob.glob(os.path.join(ROOT, "tools", "checks.d", "C*.json"))):
+    checks[os.path.basename(f)[:-5]] = json.load(open(f))
+# assemble the single committed known-findings file from per-property fragments
+kf = []
+for f in sorted(glob.glob(os.path.join(ROOT, "known_findings.d", "C*.json"))):
+    kf.extend(json.load(open(f)))
+json.dump(kf, open(os.path.join(ROOT, "known_findings.json"), "w"), indent=1)
 nc_path = os.path.join(ROOT, "tools", "not_claimed.json")
 not_claimed = json.load(open(nc_path)) if os.path.exists(nc_path) else {}
 hooks = json.load(open(os.path.join(ROOT, "tools", "hooks.json")))
